@@ -8,6 +8,13 @@ def hook_commits():
     return [l.split()[0] for l in out.splitlines() if "verif hook" in l]
 
 CLAIMED = {
+ "C13": dict(
+   level="exploration",
+   text="Seeded histories of 2-4 retention windows on a real producer (genesis period 3..8) with spent/unspent/dust outputs and three fee levels; for every accepted block past the first window its rebroadcast transactions are matched one-to-one against the reference ledger's unspent outputs of the block that just left the window (identity, owner, amount bounds, nothing foreign, nothing twice) and value conservation across the edge is checked in u128; outputs older than the window are then offered as inputs through the pool and inside a block.",
+   design="§6 C13",
+   note="Trusted: reference ledger; header fields total_fees_atr/total_payout_atr are read from the accepted block. NFT bound triples and staking not generated; disk faults on the expiring block file not injected here.",
+   technique="deterministic simulation: seeded window-wrapping histories + per-output rebroadcast ledger oracle, expired-input injection"),
+
  "C02": dict(
    level="exploration",
    text="Seeded long histories on a real producer node (genesis period 3..10, up to 30/120 blocks, fee classes, 0-2 hop paths, four golden-ticket patterns, three issuance scales, rebroadcasts after the window wraps), one third with a competing fork built by a second producer and delivered to an observer (reorganisation across payouts/rebroadcasts), one quarter with a transaction whose output sum wraps 2^64 through pool or block. After every accepted block, on every node: conservation equation in u128, node's in-window value == reference replay, no accepted user transaction with outputs > inputs.",
